@@ -844,10 +844,23 @@ def parse_contracts(paths):
 # pass 3: weave
 # --------------------------------------------------------------------------------------
 def rename_params(text, mapping):
+    """alpha-rename contract parameter names to the names found in the real signature: identifier tokens only
+    (never inside string literals or comments), and not field names (`x.id`) or path segments (`a::id`)"""
     if not mapping:
         return text
-    rx = re.compile(r'\b(' + '|'.join(re.escape(a) for a in mapping) + r')\b')
-    return rx.sub(lambda m: mapping[m.group(1)], text)
+    toks = lex(text)
+    out = []
+    for k, t in enumerate(toks):
+        if t.kind == 'ident' and t.text in mapping:
+            p = prev_code(toks, k)
+            n = next_code(toks, k)
+            if (p >= 0 and toks[p].text in ('.', '::')) or (n < len(toks) and toks[n].text == '::'):
+                out.append(t.text)
+            else:
+                out.append(mapping[t.text])
+        else:
+            out.append(t.text)
+    return ''.join(out)
 
 
 def clause_block(clauses, kind, fq, mode, mapping, indent='    '):
